@@ -908,7 +908,6 @@ inline void CoreSMTSolver::printSMTClause(std::ostream & os, const C& c )
     for (unsigned i = 0; i < c.size(); i++)
     {
         Var v = var(c[i]);
-        if (v <= 1) continue;
         os << (sign(c[i]) ? "(not " : "") << theory_handler.getVarName(v) << (sign(c[i]) ? ") " : " ");
     }
     if (c.size( ) > 1) os << ")";
